@@ -136,6 +136,101 @@ def scenarios(seed, n):
         body = ["trap 'echo Bx $?; echo Ex $?' EXIT", "echo M1 $?", rng.choice(["true", "if false; then :; fi", "false || true"]),
                 "echo M2 $?", rng.choice(["false", "( exit 4 )", "if true; then false; fi", "fz() { false; }; fz"]), "echo NOTREACHED"]
         out.append(("\n".join(body) + "\n", {"exit_runs": 1, "err": False, "term": "-e flag", "fes": ["c:-e", "f:-e", "s:-e"], "debug": None}))
+    out += reach_scenarios(rng, max(60, n // 2))
+    out += job_scenarios(rng, max(40, n // 4))
+    return out
+
+
+# ---- round 4: every way of REACHING exit/return, and background jobs under every front-end -------------------
+# `exit n` / `return n` reached through `command`, `builtin`, stacked prefixes, wrapper functions (also one that is
+# itself named `exit`), eval, sourced files -- the control flow (ExitShell / return) has to survive every layer.
+EXIT_VIA = ["exit %d", "command exit %d", "builtin exit %d", "command builtin exit %d", "builtin command exit %d",
+            "command command exit %d", "command -p exit %d", "eval 'command exit %d'", "eval \"builtin exit %d\"",
+            "command eval 'exit %d'", "builtin eval 'command exit %d'",
+            "echo 'exit %d' > \"$D/s.sh\"; . \"$D/s.sh\"", "echo 'command exit %d' > \"$D/s.sh\"; source \"$D/s.sh\"",
+            "echo 'exit %d' > \"$D/s.sh\"; command . \"$D/s.sh\"", "echo 'builtin exit %d' > \"$D/s.sh\"; builtin source \"$D/s.sh\"",
+            "xexit %d", "xbexit %d", "xeval %d"]
+RETURN_VIA = ["return %d", "command return %d", "builtin return %d", "eval 'command return %d'", "command eval 'return %d'",
+              "command builtin return %d"]
+REACH_CTX = ["%s", "false || %s", "true && %s", "if %s; then echo NOTREACHED; fi", "for i in 1 2; do %s; echo NOTREACHED; done",
+             "while true; do %s; echo NOTREACHED; done", "fctx() { %s; echo NOTREACHED; }; fctx",
+             "fctx() { for i in 1 2; do %s; echo NOTREACHED; done; echo NOTREACHED; }; fctx; echo NOTREACHED",
+             "{ %s; echo NOTREACHED; }", "case x in x) %s; echo NOTREACHED;; esac",
+             "fchk() { [ -e /nonexistent/file ] || %s; echo NOTREACHED; }; for i in 1 2; do fchk; echo NOTREACHED; done"]
+REACH_PROLOGUE = """fok() { :; }
+xexit() { command exit "$@"; }
+xbexit() { builtin exit "$@"; }
+xeval() { eval "command exit $1"; }"""
+WRAPPERS = ["exit() { echo W $1; command exit \"$@\"; }", "exit() { echo W $1; builtin exit \"$@\"; }",
+            "exit() { echo W $1; command builtin exit \"$@\"; }"]
+# background jobs: a job that ends in a shell-level error (not just a non-zero status), collected or not
+JOB_BODIES = [": ${NOPE?not set}", "sleep 0.1; : ${NOPE?not set}", "readonly R=1; R=2", ": $((1/0))", "set -u; : $NOPE_ZZ",
+              "false", "exit 3", "no_such_cmd_zz", "true", ". /nonexistent/zz.sh", "sleep 0.1; : ${NOPE:?}; : after",
+              "declare -r Q=1; Q=2; :", "fjob"]
+JOB_SYNC = ["sleep 0.3", "sleep 0.4; :", "wait", "sleep 0.3; wait", ":", "wait; sleep 0.1"]
+
+
+def reach_scenarios(rng, n):
+    out = []
+    for k in range(n):
+        st = rng.choice([3, 4, 5, 0])
+        lines = [REACH_PROLOGUE]
+        err = rng.random() < 0.25
+        wrapper = rng.random() < 0.35
+        if wrapper:
+            lines.append(rng.choice(WRAPPERS))
+        tr = ["trap 'echo Bx $?; echo Ex $?' EXIT"] + (["trap 'echo Be $?; echo Ee $?' ERR"] if err else [])
+        rng.shuffle(tr)
+        lines += tr
+        if rng.random() < 0.2:
+            lines.append("set -e")
+        m = 0
+        for _ in range(rng.randrange(0, 3)):
+            r = rng.random()
+            rs = rng.choice([3, 4, 5, 0])
+            if r < 0.4:     # return reached through builtin prefixes: the function stops, the shell does not
+                lines.append("fr%d() { %s; echo NOTREACHED; }" % (m, rng.choice(RETURN_VIA) % rs))
+                lines.append("fr%d || :" % m)
+            elif r < 0.6:   # ... and in a sourced file
+                lines.append("echo '%s; echo NOTREACHED' > \"$D/r.sh\"; . \"$D/r.sh\" || :" % (rng.choice(RETURN_VIA[:3]) % rs))
+            elif r < 0.85:  # exit through the same layers inside a subshell: only the subshell ends
+                lines.append("( %s; echo NOTREACHED ) || :" % (rng.choice(EXIT_VIA) % rs))
+            else:
+                lines.append("v=$(%s; echo NOTREACHED) || :" % (rng.choice(EXIT_VIA) % rs))
+            m += 1
+            lines.append("echo M%d $?" % m)
+        via = rng.choice(EXIT_VIA) % st
+        term = rng.choice(REACH_CTX) % via
+        lines.append(term)
+        lines.append("echo NOTREACHED")
+        out.append(("\n".join(lines) + "\n",
+                    {"exit_runs": 1, "err": err, "term": term, "debug": None, "family": "exit/return reached through command/builtin/wrapper/eval/source",
+                     "kind": "reach", "wrapper": wrapper}))
+    return out
+
+
+def job_scenarios(rng, n):
+    out = []
+    for k in range(n):
+        lines = ["fjob() { : ${NOPE?in function}; }", "trap 'echo Bx $?; echo Ex $?' EXIT", "echo M1 $?"]
+        m = 1
+        for _ in range(rng.randrange(1, 3)):
+            body = rng.choice(JOB_BODIES)
+            lines.append(rng.choice(["{ %s; } &", "( %s ) &", "{ %s; } 2>/dev/null &", "fbg() { %s; }; fbg &"]) % body)
+            lines.append(rng.choice(JOB_SYNC))
+            m += 1
+            lines.append("echo M%d $?" % m)
+            lines.append(rng.choice(["true", "false", "( exit 4 )"]))
+            m += 1
+            lines.append("echo M%d $?" % m)
+        term = rng.choice(["exit 7", "exit 0", "", "( exit 5 )", "command exit 3", "set -e; false"])
+        if term:
+            lines.append(term)
+        if "exit" in term.split("(")[0] or term.startswith("set -e"):
+            lines.append("echo NOTREACHED")
+        out.append(("\n".join(lines) + "\n",
+                    {"exit_runs": 1, "err": False, "term": term, "debug": None, "kind": "job", "fes": ["c", "f", "s", "s:-s"],
+                     "family": "background jobs ending in a shell-level error before the next command is read"}))
     return out
 
 
@@ -226,7 +321,8 @@ def run_scenarios(ctx, n):
     outb = ctx.impl("trapsproc", cases_b, shards=min(core.NPROC, 12))
     specv = []
     st = {"runs": 0, "bash_equal": 0, "known_err_on_exit": 0, "bash_unusable": 0, "with_debug_trap": 0,
-          "with_suppression_op": 0, "exit_in_compound_position": 0, "flag_or_set_option_path": 0}
+          "with_suppression_op": 0, "exit_in_compound_position": 0, "flag_or_set_option_path": 0,
+          "exit_or_return_reached_through_layers": 0, "background_job_runs": 0}
 
     def dec(line):
         if not line or line.startswith(("TIMEOUT", "SPAWNFAIL", "DIED")):
@@ -239,12 +335,14 @@ def run_scenarios(ctx, n):
     for k, (si, fe) in enumerate(idx):
         text, meta = scs[si]
         inp = {"frontend": {"c": "-c", "f": "script file", "s": "stdin"}[fe[0]] + (" with flags " + fe[2:] if ":" in fe else ""),
-               "script": text, "family": "differential trap scenarios"}
+               "script": text, "family": meta.get("family", "differential trap scenarios")}
         st["runs"] += 1
         st["with_debug_trap"] += meta.get("debug") is not None
         st["with_suppression_op"] += ("compgen" in text.split("fcond()")[1] if "fcond()" in text else False) or "complete -F" in text
         st["exit_in_compound_position"] += meta["term"] in TERMS_POS
-        st["flag_or_set_option_path"] += "fes" in meta
+        st["flag_or_set_option_path"] += "fes" in meta and meta.get("kind") != "job"
+        st["exit_or_return_reached_through_layers"] += meta.get("kind") == "reach"
+        st["background_job_runs"] += meta.get("kind") == "job"
         c, b = dec(outv[k]), dec(outb[k])
         if c is None:
             specv.append({"input": inp, "why": "the shell did not terminate normally: %s" % outv[k][:80]})
